@@ -146,6 +146,14 @@ def cases(tier, seed):
     for xg in scope.extreme_geometries(3):
         out.append({"kind": "layout", "geo": xg, "la": [L_id[5], None], "lb": [L_id[7], L_id[-1]], "seed": seed, "sels": [0, 2], "forms": False})
     out.append({"kind": "far", "seed": seed})
+    # the same layout on both sides (the by-file mode) with file numbers that have gaps / do not start at 0
+    for lay in ({"files": [[0], [2, 1]], "nums": [1, 3]}, {"files": [[1], [0], [2]], "nums": [7, 2, 100000]}, {"files": [[2, 0, 1]], "nums": [4]}):
+        for lv in range(nlev):
+            la = [None] * nlev
+            la[lv] = lay
+            out.append({"kind": "layout", "geo": geo, "la": la, "lb": list(la), "seed": seed, "sels": [0, 2], "forms": False})
+    # the first input opened with a level limit below its finest level, the second a plotfile of exactly those levels
+    out.append({"kind": "limited", "geo": geo, "seed": seed, "w": 2})
     # level directories named otherwise than Level_k, in either input or in both
     for pa_, pb_ in (("Lev_", "Level_"), ("Level_", "Lev_"), ("Lev_", "L")):
         out.append({"kind": "layout", "geo": geo, "la": [L_id[5], None], "lb": [L_id[7], L_id[-1]], "seed": seed, "sels": [0, 2], "forms": False,
@@ -175,6 +183,41 @@ def do_combine(pa, pb, out, v1, v2):
     return st, val, ctl, ev
 
 
+def run_limited(case, workdir):
+    """combine(PlotfileCooker(A, limit_level=0), PlotfileCooker(B0)) where A has two levels and B0 is a one-level plotfile on
+    A's level-0 mesh: the result is the merge of the level-0 contents"""
+    from amr_kitchen import PlotfileCooker
+    rec = Rec()
+    seed = case["seed"]
+    m = mesh()
+    m.update(case["geo"])
+    L_id = scope.layouts(3, 'id')
+    da = dict(m, fields=FA, layout=[L_id[5], L_id[7]], seed=seed)
+    db = dict(m, fields=FB, layout=[L_id[-1]], seed=seed + 1, payload="signed")
+    db["levels"] = m["levels"][:1]
+    pa, ra = build(da, workdir, "pltA")
+    pb, rb = build(db, workdir, "pltB0")
+    before = (tree_digest(pa), tree_digest(pb))
+    fn = sys_combine()
+    for k, (v1, v2) in enumerate(((None, None), (["temp"], ["Zvar", "Z"]))):
+        out = os.path.join(workdir, "out_lim%d" % k)
+        with vpool.controlled() as ctl:
+            st, val = call(lambda: fn(PlotfileCooker(pa, limit_level=0), PlotfileCooker(pb), pltout=out, vars1=v1, vars2=v2))
+        sub = {"first_input": "opened with limit_level=0 (two levels on disk)", "vars1": v1, "vars2": v2}
+        rec.exe([h64([da, db]), "limited", k], nontrivial=True, trans=1 + sum(c["n"] for c in ctl.calls))
+        if st == "exc":
+            rec.fail("raised", sub, exc_text(val))
+            continue
+        pp = oracle.parse_output(rec, sub, out)
+        if pp is not None:
+            oracle.compare_contents(rec, sub, pp, ra.strain(["all"], 0).combine(rb, v1, v2))
+            oracle.taste_accepts(rec, sub, out)
+    if (tree_digest(pa), tree_digest(pb)) != before:
+        rec.fail("input_modified", {}, "")
+    rec.sample({"limited": True})
+    return rec.result()
+
+
 def run_case(case, workdir):
     rec = Rec()
     seed = case["seed"]
@@ -193,6 +236,8 @@ def run_case(case, workdir):
         elif ev:
             rec.fail("mismatch_wrote", sub, "events %r" % ev[:3])
         return rec.result()
+    if case["kind"] == "limited":
+        return run_limited(case, workdir)
     m = mesh()
     fa_, fb_ = FA, FB
     if case.get("deep"):
